@@ -13,6 +13,33 @@ STRINGS = ["", "a", "hello world", "three", "λx", "a(b)c", "semi;colon", "#hash
 CHARS = ["a", "Z", "0", "(", ")", ";", "λ", "#", "x", "."]
 ENV_TEXT = {"u0": "42", "u1": "\"str\"", "u2": "1.5", "u3": "s", "u4": "#t", "u5": "#\\c", "u6": "(1 2)", "u7": "()"}
 FLOATS = [("1.5", 15, -1), ("0.25", 25, -2), ("2e3", 2, 3), ("12.5e-1", 125, -2), ("100.0", 1000, -1), ("3.0", 30, -1), ("6.02e23", 602, 21), ("1e-7", 1, -7)]
+# Float literals OUTSIDE the window in which the default build reads a decimal exactly (digits fit 2^53 and
+# |exponent| <= 22): rustc rounds the macro's literal correctly, the crate's fast path may be one ulp off.
+# Each runs as a stand-alone invocation at the end of every batch so that the failure names exactly this input
+# (known_findings.txt lists them; Lean: C09_float_window_needed).
+FIXED_OUTSIDE_WINDOW = [("1e-23", 1, -23), ("8.5e-30", 85, -31)]
+
+def rand_float(r):
+    """a decimal float literal inside the exactness window: at most 15 significant digits and the power of
+    ten applied to the integer significand within [-22, 22]"""
+    if r.random() < 0.4:
+        return r.choice(FLOATS)
+    ip = str(r.randrange(0, 10 ** r.choice([1, 1, 2, 3, 6, 9])))
+    fr = "".join(r.choice("0123456789") for _ in range(r.choice([0, 1, 1, 2, 3, 6])))
+    if len(ip) + len(fr) > 15:
+        fr = fr[:15 - len(ip)]
+    lo, hi = -22 + len(fr), 22 + len(fr)
+    e = r.choice([None, None, r.randrange(lo, hi + 1), r.randrange(-5, 6)])
+    if e is not None and not (lo <= e <= hi):
+        e = None
+    if not fr and e is None:
+        fr = "0"
+    s = ip + ("." + fr if fr else "") + ("e%d" % e if e is not None else "")
+    sig = int(ip + fr)
+    ex = (e or 0) - len(fr)
+    if not (-22 <= ex <= 22):
+        return r.choice(FLOATS)
+    return (s, sig, ex)
 
 def hx(s):
     return binascii.hexlify(s.encode("utf-8")).decode()
@@ -36,10 +63,10 @@ def atom(r, prev_minus_ok=True):
         n = r.choice([1, 5, 42, 2147483647, r.randrange(1, 100000)])
         return Node("-%d" % n, "-%d" % n, ["p45a", "li%d" % n])
     if k == 2:
-        s, sig, e = r.choice(FLOATS)
+        s, sig, e = rand_float(r)
         return Node(s, s, ["lf%de%d" % (sig, e)])
     if k == 3:
-        s, sig, e = r.choice(FLOATS)
+        s, sig, e = rand_float(r)
         return Node("-" + s, "-" + s, ["p45a", "lf%de%d" % (sig, e)])
     if k == 4:
         s = r.choice(STRINGS)
@@ -178,6 +205,8 @@ def run(prop, tier, seed, workdir, harness, driver):
             if t.text is None:
                 continue
             cases.append(t)
+        for fs, sig, e in FIXED_OUTSIDE_WINDOW:
+            cases.append(Node(fs, fs, ["lf%de%d" % (sig, e)]))
         os.makedirs(os.path.join(BUILD, "src"), exist_ok=True)
         shutil.copy("/repo/Cargo.lock", os.path.join(BUILD, "Cargo.lock"))
         with open(os.path.join(BUILD, "Cargo.toml"), "w") as f:
